@@ -5,7 +5,7 @@
    Part B (real numbers): closed form of one calc(): energy = sum of the energies of the counted
    biases, force on a coordinate = sum over variables of (sum over active applying biases of
    factor * force) * gradient.  Superposition, inactivity and impulse are corollaries. *)
-From Coq Require Import ZArith List Bool Lia Arith.
+From Coq Require Import ZArith List Bool Lia Arith Permutation.
 From CV Require Import Base.Num C08.ModuleModel.
 Import ListNotations.
 Open Scope Z_scope.
@@ -749,7 +749,7 @@ Section Deps.
   Lemma wake_self_FSg it (b : bias) : FSg b -> FSg (wake_self it b).
   Proof.
     unfold wake_self, enable_awake_self, disable_awake_self, decr_active_self, disable_active_self, enable_active_self, FSg.
-    destruct b as [id tsf vars byp app upd st act rc aw e fs]. cbn.
+    destruct b as [id tsf vars byp app upd st act rc aw e fs sc fac]. cbn.
     intros [(-> & -> & ->) | [(-> & -> & ->) | (-> & -> & ->)]]; cbn;
       destruct (1 <? tsf); cbn; auto; destruct (on_schedule it tsf); cbn; auto; destruct fixed; cbn; auto.
   Qed.
@@ -826,8 +826,8 @@ Section Deps.
     destruct (calc_vars O fixed it r (tl xs)) as [r' e2]. cbn [snd] in *. rewrite IH. reflexivity.
   Qed.
 
-  Lemma add_forces_deps byp t ids : forall fs vs,
-    forall i v', nth_error (fst (add_forces O byp t ids fs vs)) i = Some v' ->
+  Lemma add_forces_deps byp t fc ids : forall fs vs,
+    forall i v', nth_error (fst (add_forces O byp t fc ids fs vs)) i = Some v' ->
       exists v, nth_error vs i = Some v /\ same_deps v v'.
   Proof.
     induction ids as [|j r IH]; intros fs vs i v' Hi.
@@ -835,10 +835,10 @@ Section Deps.
     - destruct fs as [|f fs'].
       + cbn in Hi. exists v'. split; [exact Hi | unfold same_deps; tauto].
       + cbn [add_forces] in Hi.
-        set (u := fun v : var => if byp then set_vfb v (v_fb v) (nadd O (v_fba v) (nmul O t f))
-                                else set_vfb v (nadd O (v_fb v) (nmul O t f)) (v_fba v)) in *.
+        set (u := fun v : var => if byp then set_vfb v (v_fb v) (nadd O (v_fba v) (nmul O (nmul O t f) fc))
+                                else set_vfb v (nadd O (v_fb v) (nmul O (nmul O t f) fc)) (v_fba v)) in *.
         specialize (IH fs' (upd_nth vs j u) i v').
-        destruct (add_forces O byp t r fs' (upd_nth vs j u)) as [vs2 e2]. cbn [fst] in *.
+        destruct (add_forces O byp t fc r fs' (upd_nth vs j u)) as [vs2 e2]. cbn [fst] in *.
         destruct (IH Hi) as (v1 & Hv1 & S1).
         rewrite upd_nth_nth in Hv1. destruct (Nat.eqb i j).
         * destruct (nth_error vs i) as [v0|]; [|discriminate]. cbn in Hv1. inversion Hv1; subst v1.
@@ -847,21 +847,21 @@ Section Deps.
         * exists v1. split; assumption.
   Qed.
 
-  Lemma add_forces_noerr byp t ids : forall fs vs,
+  Lemma add_forces_noerr byp t fc ids : forall fs vs,
     (forall i v, In i ids -> nth_error vs i = Some v -> v_apply v = true) ->
-    snd (add_forces O byp t ids fs vs) = false.
+    snd (add_forces O byp t fc ids fs vs) = false.
   Proof.
     induction ids as [|j r IH]; intros fs vs H; [reflexivity|].
     destruct fs as [|f fs']; [reflexivity|].
     cbn [add_forces].
-    set (u := fun v : var => if byp then set_vfb v (v_fb v) (nadd O (v_fba v) (nmul O t f))
-                            else set_vfb v (nadd O (v_fb v) (nmul O t f)) (v_fba v)).
+    set (u := fun v : var => if byp then set_vfb v (v_fb v) (nadd O (v_fba v) (nmul O (nmul O t f) fc))
+                            else set_vfb v (nadd O (v_fb v) (nmul O (nmul O t f) fc)) (v_fba v)).
     assert (E0 : match nth_error vs j with Some v => negb byp && negb (v_apply v) | None => false end = false).
     { destruct (nth_error vs j) as [v|] eqn:E; [|reflexivity].
       rewrite (H j v (or_introl eq_refl) E). apply andb_false_r. }
     rewrite E0.
     specialize (IH fs' (upd_nth vs j u)).
-    destruct (add_forces O byp t r fs' (upd_nth vs j u)) as [vs2 e2]. cbn [snd] in *. cbn [orb].
+    destruct (add_forces O byp t fc r fs' (upd_nth vs j u)) as [vs2 e2]. cbn [snd] in *. cbn [orb].
     apply IH. intros i v Hin Hi. rewrite upd_nth_nth in Hi. destruct (Nat.eqb i j).
     - destruct (nth_error vs i) as [v0|] eqn:E; [|discriminate]. cbn in Hi. inversion Hi; subst v.
       pose proof (H i v0 (or_intror Hin) E) as A. unfold u. destruct byp; destruct v0; cbn in *; exact A.
@@ -890,7 +890,7 @@ Section Deps.
           pose proof (arefs_member all b i (Hsub b (or_introl eq_refl))) as M.
           unfold c_app in M. rewrite Eab in M.
           assert (0 < cnt (b_vars b) i)%nat by (unfold cnt; apply count_occ_In; exact Hin). lia.
-        + intros i v' Hi. destruct (add_forces_deps _ _ _ _ _ i v' Hi) as (v & Hv & SD).
+        + intros i v' Hi. destruct (add_forces_deps _ _ _ _ _ _ i v' Hi) as (v & Hv & SD).
           eapply VI_same_deps; [exact SD | apply H; exact Hv].
       - cbn [fst snd]. auto. }
     destruct Hb as [E1 H1].
@@ -1066,7 +1066,7 @@ Section Real.
     end.
 
   Definition bforce (b : bias) (i : nat) : R :=
-    if b_active b && b_apply b then IZR (b_tsf b) * contrib (b_vars b) (b_forces b) i else 0.
+    if b_active b && b_apply b then IZR (b_tsf b) * b_fac b * contrib (b_vars b) (b_forces b) i else 0.
   Definition VF (bs : list bias) (i : nat) : R := rsum (map (fun b => bforce b i) bs).
   Definition CF (bs : list bias) (xs : list (list cvc)) (nv k : nat) : R :=
     rsum (map (fun i => VF bs i * gsum (nth i xs []) k) (seq 0 nv)).
@@ -1093,10 +1093,10 @@ Section Real.
   Lemma FBrel_refl v : FBrel 0 v v.
   Proof. unfold FBrel, same_deps. repeat split; lra. Qed.
 
-  Lemma add_forces_rel byp t ids : forall fs vs,
-    length (fst (add_forces Rops byp t ids fs vs)) = length vs /\
+  Lemma add_forces_rel byp t fc ids : forall fs vs,
+    length (fst (add_forces Rops byp t fc ids fs vs)) = length vs /\
     forall i v, nth_error vs i = Some v ->
-      exists v', nth_error (fst (add_forces Rops byp t ids fs vs)) i = Some v' /\ FBrel (t * contrib ids fs i) v v'.
+      exists v', nth_error (fst (add_forces Rops byp t fc ids fs vs)) i = Some v' /\ FBrel (t * fc * contrib ids fs i) v v'.
   Proof.
     induction ids as [|j r IH]; intros fs vs.
     - cbn [add_forces fst contrib]. split; [reflexivity|]. intros i v Hi. exists v. split; [exact Hi|].
@@ -1105,13 +1105,13 @@ Section Real.
       + cbn [add_forces fst contrib]. split; [reflexivity|]. intros i v Hi. exists v. split; [exact Hi|].
         rewrite Rmult_0_r. apply FBrel_refl.
       + cbn [add_forces contrib].
-        set (u := fun v : var => if byp then set_vfb v (v_fb v) (nadd Rops (v_fba v) (nmul Rops t f))
-                                else set_vfb v (nadd Rops (v_fb v) (nmul Rops t f)) (v_fba v)).
+        set (u := fun v : var => if byp then set_vfb v (v_fb v) (nadd Rops (v_fba v) (nmul Rops (nmul Rops t f) fc))
+                                else set_vfb v (nadd Rops (v_fb v) (nmul Rops (nmul Rops t f) fc)) (v_fba v)).
         destruct (IH fs' (upd_nth vs j u)) as [L1 H1].
-        destruct (add_forces Rops byp t r fs' (upd_nth vs j u)) as [vs2 e2]. cbn [fst] in *.
+        destruct (add_forces Rops byp t fc r fs' (upd_nth vs j u)) as [vs2 e2]. cbn [fst] in *.
         split; [rewrite L1; apply upd_nth_length|].
         intros i v Hi.
-        assert (Hu : exists v1, nth_error (upd_nth vs j u) i = Some v1 /\ FBrel (if Nat.eqb j i then t * f else 0) v v1).
+        assert (Hu : exists v1, nth_error (upd_nth vs j u) i = Some v1 /\ FBrel (if Nat.eqb j i then t * f * fc else 0) v v1).
         { rewrite upd_nth_nth, Hi. rewrite (Nat.eqb_sym j i). destruct (Nat.eqb i j).
           - cbn [option_map]. eexists; split; [reflexivity|].
             unfold u, FBrel, same_deps. destruct byp; destruct v; cbn; rops; repeat split; lra.
@@ -1119,8 +1119,8 @@ Section Real.
         destruct Hu as (v1 & Hv1 & R1).
         destruct (H1 i v1 Hv1) as (v' & Hv' & R2).
         exists v'. split; [exact Hv'|].
-        replace (t * ((if Nat.eqb j i then f else 0) + contrib r fs' i))
-          with ((if Nat.eqb j i then t * f else 0) + t * contrib r fs' i) by (destruct (Nat.eqb j i); lra).
+        replace (t * fc * ((if Nat.eqb j i then f else 0) + contrib r fs' i))
+          with ((if Nat.eqb j i then t * f * fc else 0) + t * fc * contrib r fs' i) by (destruct (Nat.eqb j i); lra).
         eapply FBrel_trans; eassumption.
   Qed.
 
@@ -1164,22 +1164,22 @@ Section Real.
     unfold bforce_n, bforce_a. destruct (b_bypass b); lra.
   Qed.
 
-  Lemma add_forces_fb byp t ids : forall fs vs i v,
+  Lemma add_forces_fb byp t fc ids : forall fs vs i v,
     nth_error vs i = Some v ->
-    exists v', nth_error (fst (add_forces Rops byp t ids fs vs)) i = Some v' /\
-               v_fb v' = v_fb v + (if byp then 0 else t * contrib ids fs i).
+    exists v', nth_error (fst (add_forces Rops byp t fc ids fs vs)) i = Some v' /\
+               v_fb v' = v_fb v + (if byp then 0 else t * fc * contrib ids fs i).
   Proof.
     induction ids as [|j r IH]; intros fs vs i v Hi.
     - cbn [add_forces fst contrib]. exists v. split; [exact Hi|]. destruct byp; lra.
     - destruct fs as [|f fs'].
       + cbn [add_forces fst contrib]. exists v. split; [exact Hi|]. destruct byp; lra.
       + cbn [add_forces contrib].
-        set (u := fun v : var => if byp then set_vfb v (v_fb v) (nadd Rops (v_fba v) (nmul Rops t f))
-                                else set_vfb v (nadd Rops (v_fb v) (nmul Rops t f)) (v_fba v)).
+        set (u := fun v : var => if byp then set_vfb v (v_fb v) (nadd Rops (v_fba v) (nmul Rops (nmul Rops t f) fc))
+                                else set_vfb v (nadd Rops (v_fb v) (nmul Rops (nmul Rops t f) fc)) (v_fba v)).
         specialize (IH fs' (upd_nth vs j u) i).
-        destruct (add_forces Rops byp t r fs' (upd_nth vs j u)) as [vs2 e2]. cbn [fst] in *.
+        destruct (add_forces Rops byp t fc r fs' (upd_nth vs j u)) as [vs2 e2]. cbn [fst] in *.
         assert (Hu : exists v1, nth_error (upd_nth vs j u) i = Some v1 /\
-                                v_fb v1 = v_fb v + (if byp then 0 else if Nat.eqb j i then t * f else 0)).
+                                v_fb v1 = v_fb v + (if byp then 0 else if Nat.eqb j i then t * f * fc else 0)).
         { rewrite upd_nth_nth, Hi. rewrite (Nat.eqb_sym j i). destruct (Nat.eqb i j).
           - cbn [option_map]. eexists; split; [reflexivity|]. unfold u. destruct byp; destruct v; cbn; rops; lra.
           - exists v. split; [reflexivity|]. destruct byp; lra. }
@@ -1196,7 +1196,7 @@ Section Real.
     - cbn [communicate_biases].
       assert (H1 : exists v1, nth_error (fst (communicate_bias Rops b vs)) i = Some v1 /\ v_fb v1 = v_fb v + bforce_n b i).
       { unfold communicate_bias, bforce_n, bforce. destruct (b_active b && b_apply b).
-        - destruct (add_forces_fb (b_bypass b) (nofZ Rops (b_tsf b)) (b_vars b) (b_forces b) vs i v Hi) as (v1 & A & B).
+        - destruct (add_forces_fb (b_bypass b) (nofZ Rops (b_tsf b)) (b_fac b) (b_vars b) (b_forces b) vs i v Hi) as (v1 & A & B).
           exists v1. split; [exact A|]. rewrite B. destruct (b_bypass b); rops; lra.
         - cbn [fst]. exists v. split; [exact Hi|]. destruct (b_bypass b); lra. }
       destruct (communicate_bias Rops b vs) as [vs1 e1]. cbn [fst] in *.
@@ -1232,7 +1232,8 @@ Section Real.
 
   Definition bias_update_pure (it : Z) (nv : nat) (xs : list (list cvc)) (b : bias) : bias :=
     if b_active b then
-      let '(s', (e, fs)) := b_upd b (b_st b) it (map (fresh nv xs) (b_vars b)) in set_bout b s' e fs
+      let '(s', (e, fs)) := b_upd b (b_st b) it (map (fresh nv xs) (b_vars b)) in
+      set_bout b s' e fs (b_scale b (map (fresh nv xs) (b_vars b)))
     else b.
 
   Definition bias_step (it : Z) (nv : nat) (xs : list (list cvc)) (b : bias) : bias :=
@@ -1761,6 +1762,22 @@ Section Real.
       + rewrite F2, IH2. reflexivity.
   Qed.
 
+  (* ---- the order of the biases does not matter -------------------------------------------------------- *)
+  Lemma rsum_perm {A} (f : A -> R) (l l' : list A) : Permutation l l' -> rsum (map f l) = rsum (map f l').
+  Proof. induction 1; cbn [map rsum]; lra. Qed.
+
+  Theorem order_independent it0 tsfs (cfgs cfgs' : list (@bias_cfg R BS)) evs j :
+    Permutation cfgs cfgs' ->
+    (forall k, nth_force (run_cfg Rops fixed efix it0 tsfs cfgs evs) j k
+               = nth_force (run_cfg Rops fixed efix it0 tsfs cfgs' evs) j k) /\
+    nth_energy (run_cfg Rops fixed efix it0 tsfs cfgs evs) j = nth_energy (run_cfg Rops fixed efix it0 tsfs cfgs' evs) j.
+  Proof.
+    intros P. destruct (superposition_all it0 tsfs cfgs evs j) as [A1 A2].
+    destruct (superposition_all it0 tsfs cfgs' evs j) as [B1 B2]. split.
+    - intros k. rewrite A1, B1. apply rsum_perm; exact P.
+    - rewrite A2, B2. apply rsum_perm; exact P.
+  Qed.
+
   (* forces delivered over a window of N calls starting at call j *)
   Definition window_force (outs : list (@out R BS)) (j N k : nat) : R :=
     rsum (map (fun t => nth_force outs (j + t) k) (seq 0 N)).
@@ -1882,7 +1899,7 @@ Section Real.
   Lemma wake_self_static it (b : bias) : same_static b (wake_self fixed it b).
   Proof.
     unfold wake_self, enable_awake_self, disable_awake_self, decr_active_self, disable_active_self, enable_active_self.
-    destruct b as [id tsf vars byp app upd st act rc aw e fs]. unfold same_static. cbn.
+    destruct b as [id tsf vars byp app upd st act rc aw e fs sc fac]. unfold same_static. cbn.
     repeat match goal with |- context [if ?c then _ else _] => destruct c; cbn end; tauto.
   Qed.
 
@@ -1891,7 +1908,7 @@ Section Real.
   Proof.
     intros F Ht Hs. unfold wake_self. rewrite Ht, Hs.
     unfold enable_awake_self, enable_active_self, SA.
-    destruct b as [id tsf vars byp app upd st act rc aw e fs]. unfold FS, S0, SA, SS in F. cbn in *.
+    destruct b as [id tsf vars byp app upd st act rc aw e fs sc fac]. unfold FS, S0, SA, SS in F. cbn in *.
     destruct F as [(-> & -> & ->) | [(-> & -> & ->) | (-> & -> & ->)]]; cbn; auto.
   Qed.
 
@@ -1900,7 +1917,7 @@ Section Real.
   Proof.
     intros Hf F Ht Hs. unfold wake_self. rewrite Ht, Hs, Hf.
     unfold enable_awake_self, disable_awake_self, decr_active_self, disable_active_self, enable_active_self, SS.
-    destruct b as [id tsf vars byp app upd st act rc aw e fs]. unfold FS, S0, SA, SS in F. cbn in *.
+    destruct b as [id tsf vars byp app upd st act rc aw e fs sc fac]. unfold FS, S0, SA, SS in F. cbn in *.
     destruct F as [(-> & -> & ->) | [(-> & -> & ->) | (-> & -> & ->)]]; cbn; auto.
   Qed.
 
@@ -1967,7 +1984,7 @@ Section Real.
       + apply Nat.eqb_eq in E. exfalso.
         assert (Hid' : Tid id).
         { destruct on; unfold enable_active_self, disable_active_self in Hid;
-            destruct b as [id0 tsf vars byp app upd st act rc aw e fs]; cbn in *;
+            destruct b as [id0 tsf vars byp app upd st act rc aw e fs sc fac]; cbn in *;
             repeat match type of Hid with context [if ?c then _ else _] => destruct c; cbn in Hid end; subst; exact Hid. }
         apply (Hu id on (or_introl eq_refl) Hid').
       + apply H; assumption.
@@ -2021,7 +2038,7 @@ Section Real.
   Lemma set_active_self_DInv off id on (b : bias) :
     DInv off b -> DInv (fun j => if Nat.eqb j id then negb on else off j) (set_active_self id on b).
   Proof.
-    destruct b as [id0 tsf vars byp app upd st act rc aw e fs].
+    destruct b as [id0 tsf vars byp app upd st act rc aw e fs sc fac].
     unfold DInv, set_active_self, enable_active_self, disable_active_self. cbn.
     intros H. destruct (Nat.eqb id0 id) eqn:E.
     - destruct on, act; cbn; try (destruct (1 <? rc)%Z eqn:Er; cbn);
@@ -2069,13 +2086,13 @@ Section Real.
 
   (* ---- multiple time stepping of one bias: evaluation and impulse ----------------------------------- *)
   Definition inst_force (b : bias) (xs : list (list cvc)) (nv k : nat) : R :=
-    rsum (map (fun i => contrib (b_vars b) (b_forces b) i * gsum (nth i xs []) k) (seq 0 nv)).
+    rsum (map (fun i => b_fac b * contrib (b_vars b) (b_forces b) i * gsum (nth i xs []) k) (seq 0 nv)).
 
   Lemma CF_one_active (b : bias) xs nv k : b_active b && b_apply b = true ->
     CF [b] xs nv k = IZR (b_tsf b) * inst_force b xs nv k.
   Proof.
     intros H. unfold CF, inst_force. rewrite <- rsum_map_scal. apply rsum_map_ext. intros i _.
-    unfold VF, bforce. cbn [map rsum]. rewrite H. lra.
+    unfold VF, bforce. cbn [map rsum]. rewrite H. ring.
   Qed.
 
   Definition selem := (Z * bias * list (list cvc))%type.
@@ -2106,7 +2123,7 @@ Section Real.
     b_forces (wake_self fixed it b) = b_forces b.
   Proof.
     unfold wake_self, enable_awake_self, disable_awake_self, decr_active_self, disable_active_self, enable_active_self.
-    destruct b as [id tsf vars byp app upd st act rc aw e fs]. cbn.
+    destruct b as [id tsf vars byp app upd st act rc aw e fs sc fac]. cbn.
     repeat match goal with |- context [if ?c then _ else _] => destruct c; cbn end; auto.
   Qed.
 
@@ -2460,7 +2477,7 @@ Definition Zops : NumOps Z :=
 Section Witness.
   (* one variable = z coordinate of atom 0 (coordinate index 2), value v *)
   Definition wx (v : Z) : list (list (@cvc_in Z)) := [[mkCvc 1%Z 1%nat v [(2%nat, 1%Z)]]].
-  Definition wharm (tsf : Z) : (nat * Z * list nat * @kind Z) := (0%nat, tsf, [0%nat], KHarmonic 1%Z [(0%Z, 1%Z)]).
+  Definition wharm (tsf : Z) : (nat * Z * list nat * @kind Z * option (Z * Z * list Z)) := (0%nat, tsf, [0%nat], KHarmonic 1%Z [(0%Z, 1%Z)], None).
   (* (step, activity of the biases, activity of the variables, energy, force on the z coordinate of atom 0) *)
   Definition wview (o : @out Z (@kst Z)) :=
     (o_it o, map (fun b => b_active b) (o_biases o), map (fun v => v_active v) (o_vars o), o_energy o,
@@ -2497,16 +2514,16 @@ Section Witness.
 
   (* before the fix: a non-applying bias with energy 5 adds 5 to the reported energy *)
   Lemma witness_energy_unfixed :
-    map wview (run_kinds Zops true false 0 [1%Z] [(0%nat, 1%Z, [0%nat], KConst 5%Z)] [EStep (wx 1)])
+    map wview (run_kinds Zops true false 0 [1%Z] [(0%nat, 1%Z, [0%nat], KConst 5%Z, None)] [EStep (wx 1)])
     = [(0, [true], [true], 5, 0)]%Z.
   Proof. vm_compute. reflexivity. Qed.
   Lemma witness_energy_fixed :
-    map wview (run_kinds Zops true true 0 [1%Z] [(0%nat, 1%Z, [0%nat], KConst 5%Z)] [EStep (wx 1)])
+    map wview (run_kinds Zops true true 0 [1%Z] [(0%nat, 1%Z, [0%nat], KConst 5%Z, None)] [EStep (wx 1)])
     = [(0, [true], [true], 0, 0)]%Z.
   Proof. vm_compute. reflexivity. Qed.
 
   (* superposition on a concrete run: factor-2 harmonic + factor-1 linear sharing the variable *)
-  Definition wlin : (nat * Z * list nat * @kind Z) := (1%nat, 1%Z, [0%nat], KLinear 3%Z [(0%Z, 1%Z)]).
+  Definition wlin : (nat * Z * list nat * @kind Z * option (Z * Z * list Z)) := (1%nat, 1%Z, [0%nat], KLinear 3%Z [(0%Z, 1%Z)], None).
   Lemma witness_superposition :
     let evs := [EStep (wx 1); EStep (wx 2); EStep (wx 4)] in
     (map wview (run_kinds Zops true true 0 [1%Z] [wharm 2; wlin] evs),
@@ -2515,6 +2532,13 @@ Section Witness.
     = ([(0, [true; true], [true], 3, -5); (1, [false; true], [true], 6, -3); (2, [true; true], [true], 12, -11)],
        [(0, [true], [true], 0, -2); (1, [false], [false], 0, 0); (2, [true], [true], 0, -8)],
        [(0, [true], [true], 3, -3); (1, [true], [true], 6, -3); (2, [true], [true], 12, -3)])%Z.
+  Proof. vm_compute. reflexivity. Qed.
+  (* scaledBiasingForce: grid on [0,4) of width 1 with factors 2,3,1,5; harmonic k=1 centre 0: x=1 -> bin 1 -> factor 3:
+     force -1*3; x=7 is outside the grid: factor 1 *)
+  Lemma witness_scaled :
+    map wview (run_kinds Zops true true 0 [1%Z] [(0%nat, 2%Z, [0%nat], KHarmonic 1%Z [(0%Z, 1%Z)], Some (0%Z, 1%Z, [2%Z; 3%Z; 1%Z; 5%Z]))]
+                 [EStep (wx 1); EStep (wx 1); EStep (wx 7)])
+    = [(0, [true], [true], 0, -6); (1, [false], [false], 0, 0); (2, [true], [true], 0, -14)]%Z.
   Proof. vm_compute. reflexivity. Qed.
 End Witness.
 
